@@ -10,7 +10,7 @@ HOOKS = {
 ENGINES = [
     {"name": "kani", "path": "bin/check", "serves_properties": ["C01", "C02", "C03", "C04", "C05", "C06", "C07", "C10", "C11", "C12", "C13", "C14", "C15", "C16", "C17", "C18", "C19"],
      "kind_free_text": "Kani 0.68 / CBMC 6.11 harness crate (kani/src) built against /repo's crates on every run; bounded stand-in and counterexample generator; replay binary kh-replay re-runs a counterexample on the stable toolchain"},
-    {"name": "verus", "path": "bin/check", "serves_properties": ["C01", "C02", "C03", "C04", "C05", "C06", "C07", "C08", "C10", "C13", "C14", "C15", "C16", "C19"],
+    {"name": "verus", "path": "bin/check", "serves_properties": ["C01", "C02", "C03", "C04", "C05", "C06", "C07", "C08", "C10", "C13", "C14", "C15", "C16", "C18", "C19"],
      "kind_free_text": "contract templates (specs/*.vrs) whose holes are filled with the real items/function bodies of /repo by the vx extractor on every run; Verus 0.2026.09.13 (Z3) discharges every obligation"},
 ]
 NOTES = ("Technique family: contract-based deductive verification of the real code. exit 2 = undecided (lost anchor, unsupported construct, "
@@ -167,7 +167,10 @@ CLAIMS["C17"] = kclaim(
     "error type the same error is recovered by downcast.",
     note=KANI_NOTE + " Universal over wrapped implementations only by parametricity of the forwarding code.")
 CLAIMS["C18"] = kclaim(
-    "collection::Generator (owning and borrowing) yields exactly `size` elements, element i being the i-th draw (sizes 0..=3, thorough 6); Bitstring::random*, Plushy and population "
+    "Verus (any member type, any length): the real OneOfCloning::new (at T := Vec<U>) rejects exactly the empty collection and otherwise establishes the representation invariant tying its three "
+    "copies of the member count together (Uniform range = 0..len, NonZeroUsize count = len); from that invariant the real sample returns a clone of the member at the drawn in-range position — "
+    "the unwrap() in its body is proved unreachable-to-fail — and num_choices reports the number of members; likewise ChooseCloning::new / num_choices / sample over rand's Choose. "
+    "Kani (bounded): collection::Generator (owning and borrowing) yields exactly `size` elements, element i being the i-th draw (sizes 0..=3, thorough 6); Bitstring::random*, Plushy and population "
     "generators have exactly the configured size. OneOfCloning, ChooseCloning, Choose through all IntoDistribution / ToDistribution flavours for Vec, arrays and slices and "
     "uniform_distribution_of!: empty source => Err(EmptySlice) at construction, num_choices == len, every sample is a member (borrowing forms: pointer-equal to a member), first and "
     "last member reachable.",
@@ -184,7 +187,7 @@ NOT_APPLICABLE = {
 }
 
 VK_TECH = "Verus contracts on the mechanically extracted real bodies (generic, unbounded) + Kani/CBMC harnesses on the compiled crates (complete where loop-free and full-domain, otherwise bounded stand-ins)"
-for _p in ("C07", "C13", "C14", "C15"):
+for _p in ("C07", "C13", "C14", "C15", "C18"):
     CLAIMS[_p]["technique"] = VK_TECH
     CLAIMS[_p]["engine"] = "verus"
 for _p in ("C01", "C02", "C03"):
@@ -214,8 +217,14 @@ CLAIMS["C16"]["text"] = ("Verus (unbounded): Weighted / WeightedPair::select, Th
     "keyed by name, limits) — a function with such a contract cannot depend on thread-local or global randomness, hash-map order or time, and two runs from equal states agree on result "
     "and final generator state. Kani (bounded): " + CLAIMS["C16"]["text"])
 CLAIMS["C16"]["technique"] = VK_TECH + "; self-composition harnesses with an entropy guard"
-CLAIMS["C10"]["text"] = ("Verus (all lengths / indices / ranges): Bitstring::crossover_gene and crossover_segment return Err and change nothing exactly when the index / range leaves "
-    "either genome, and otherwise swap exactly the addressed genes between the two genomes. Kani: " + CLAIMS["C10"]["text"])
+CLAIMS["C10"]["text"] = ("Verus (all lengths / indices / ranges / stream states): Bitstring::crossover_gene and crossover_segment are proved against the Crossover contract (Err and nothing "
+    "changed exactly when the index / range leaves either genome, otherwise exactly the addressed genes swapped). From that contract alone, TwoPointXo over ANY Crossover genome returns the first "
+    "parent with one contiguous segment [min, max) of two draws from 0..=len taken from the second parent at the same positions, and UniformXo (loop invariant on the real loop) takes position i "
+    "from the second parent exactly when the i-th coin shows heads; TwoPointXo over Vec<T> is proved directly. Parents of different lengths give DifferentGenomeLength(a, b) with the stream "
+    "untouched. The non-empty-range precondition of random_range and the slice bounds are proved, so these bodies cannot panic. Kani (UniformXo over Vec<T>, tuple forms, real rand): " + CLAIMS["C10"]["text"])
+CLAIMS["C10"]["engine"] = "verus"
+CLAIMS["C12"]["text"] = ("Verus (unbounded): UniformXo over any Crossover genome decides position i by the i-th draw of Rng::random::<bool>() alone (one coin per position; its fairness is rand's contract). "
+    "Kani: " + CLAIMS["C12"]["text"])
 CLAIMS["C10"]["technique"] = VK_TECH
 CLAIMS["C06"]["text"] = ("Verus (unbounded): Weighted::select / WeightedPair::select return a member's selection, or exactly ZeroWeight, or the member's error wrapped to identify the member; "
     "Lexicase::select returns population[i] for a surviving i or exactly EmptyPopulation / MissingTestCase. Kani: " + CLAIMS["C06"]["text"])
